@@ -42,7 +42,7 @@ func vf18Hex(rt *rapid.T, b []byte, label string) string {
 }
 
 func vf18DrawIdent(rt *rapid.T, label string) vf18Ident {
-	k := rapid.Uint64().Draw(rt, label+"-key")
+	k := uint64(rapid.IntRange(0, 4095).Draw(rt, label+"-key"))
 	var id vf18Ident
 	b := detrand.Bytes(k, 20+32+24)
 	copy(id.NodeID[:], b)
@@ -154,7 +154,7 @@ func TestVerifC18History(t *testing.T) {
 	e.Floor("history-failed-start-on-known-identity/history", 0.30)
 	e.Floor("history-override-then-plain/history", 0.20)
 	rapid.Check(t, func(rt *rapid.T) {
-		detrand.Seed(rapid.Uint64().Draw(rt, "rng"))
+		detrand.Seed(uint64(rapid.IntRange(0, 1<<20).Draw(rt, "rng")))
 		defer detrand.Real()
 		dir := vf18TempDir("vf18-hist-*")
 		defer os.RemoveAll(dir)
